@@ -24,3 +24,159 @@ package consensus
 //@ spec CVRevisionValues(cur types.V2FileContract, rev types.V2FileContract) bool = rev.Capacity >= cur.Capacity && rev.Filesize <= rev.Capacity && rev.RevisionNumber > cur.RevisionNumber && types.u128(rev.RenterOutput.Value) + types.u128(rev.HostOutput.Value) == types.u128(cur.RenterOutput.Value) + types.u128(cur.HostOutput.Value) && types.u128(rev.MissedHostValue) <= types.u128(cur.MissedHostValue) && types.u128(rev.MissedHostValue) <= types.u128(rev.HostOutput.Value) && rev.TotalCollateral == cur.TotalCollateral && rev.ExpirationHeight > rev.ProofHeight
 
 //@ spec CVRenewalValues(fc types.V2FileContract, r types.V2FileContractRenewal) bool = fc.RenterPublicKey == r.NewContract.RenterPublicKey && fc.HostPublicKey == r.NewContract.HostPublicKey && types.u128(r.FinalRenterOutput.Value) + types.u128(r.RenterRollover) + types.u128(r.FinalHostOutput.Value) + types.u128(r.HostRollover) == types.u128(fc.RenterOutput.Value) + types.u128(fc.HostOutput.Value) && types.u128(r.RenterRollover) + types.u128(r.HostRollover) <= types.u128(r.NewContract.RenterOutput.Value) + types.u128(r.NewContract.HostOutput.Value) + tax(r.NewContract) && CVContractValues(r.NewContract)
+
+// ------------------------------------------------ application.go: 256-bit Work
+
+//@ spec wval(w Work) int = types.b256(w.n)
+//@ const W256 = 2^256
+
+//@ func (Work).Cmp
+//@   prop C13
+//@   ensures @order result == (wval(w) < wval(v) ? -1 : (wval(w) == wval(v) ? 0 : 1))
+
+//@ func (Work).add
+//@   prop C13
+//@   unroll loop#1 4
+//@   panics-iff wval(w) + wval(v) >= W256
+//@   ensures @exact wval(result) == wval(w) + wval(v)
+
+//@ func (Work).sub
+//@   prop C13
+//@   unroll loop#1 4
+//@   panics-iff wval(w) < wval(v)
+//@   ensures @exact wval(result) == wval(w) - wval(v)
+
+//@ func (Work).mul64
+//@   prop C13
+//@   unroll loop#1 4
+//@   panics-iff wval(w) * v >= W256
+//@   ensures @exact wval(result) == wval(w) * v
+
+//@ func (Work).div64
+//@   prop C13
+//@   unroll loop#1 4
+//@   panics-iff v == 0
+//@   ensures @exact wval(result) == wval(w) / v
+
+//@ func (Work).min
+//@   prop C13
+//@   ensures @min wval(result) == min(wval(w), wval(v))
+
+//@ func (Work).max
+//@   prop C13
+//@   ensures @max wval(result) == max(wval(w), wval(v))
+
+//@ axiom wval(oneWork) == 1
+
+// ------------------------------------------------ application.go: retargeting
+
+//@ func adjustDifficultyFinalCut
+//@   prop C13
+//@   requires wval(s.Difficulty) >= 1 && wval(s.Difficulty) < 2^190 && wval(s.OakWork) < 2^190
+//@   requires s.Network != nil && 0 < s.Network.BlockInterval && s.Network.BlockInterval <= 2^50
+//@   ensures @nonzero wval(result) >= 1
+//@   ensures @clamp-up wval(result) <= wval(s.Difficulty) + max(wval(s.Difficulty) / 250, 1)
+//@   ensures @clamp-down wval(result) + max(wval(s.Difficulty) / 250, 1) >= wval(s.Difficulty)
+
+//@ func adjustDifficultyV2
+//@   prop C13
+//@   requires wval(s.Difficulty) < 2^190 && wval(s.OakWork) < 2^190
+//@   requires s.Network != nil && 0 < s.Network.BlockInterval && s.Network.BlockInterval <= 2^50
+//@   ensures @clamp-up wval(result) <= wval(s.Difficulty) + wval(s.Difficulty) / 250
+//@   ensures @clamp-down wval(result) >= wval(s.Difficulty) - wval(s.Difficulty) / 250
+//@   ensures @nonzero wval(s.Difficulty) >= 1 ==> wval(result) >= 1
+
+// invTarget is implemented with math/big (T5); its contract is assumed, not proved.
+//@ func invTarget
+//@   trusted
+//@   requires types.b256(n) != 0
+//@   ensures types.b256(inv) == (W256 - 1) / types.b256(n)
+
+//@ spec cheight(s State) int = (s.Index.Height + 1) % 2^64
+
+//@ func (State).medianTimestamp
+//@   abstract
+
+//@ func (State).NonceFactor
+//@   prop C13
+//@   requires s.Network != nil
+//@   ensures result == (cheight(s) < s.Network.HardforkASIC.Height ? 1 : s.Network.HardforkASIC.NonceFactor)
+
+//@ func (State).PoWTarget
+//@   prop C13
+//@   requires s.Network != nil
+//@   requires cheight(s) >= s.Network.HardforkV2.FinalCutHeight ==> wval(s.Difficulty) != 0
+//@   ensures @era types.b256(result) == (cheight(s) < s.Network.HardforkV2.FinalCutHeight ? types.b256(s.ChildTarget) : (W256 - 1) / wval(s.Difficulty))
+
+//@ func ValidateHeader
+//@   prop C13 C08
+//@   requires s.Network != nil && s.Network.HardforkASIC.NonceFactor >= 1
+//@   requires cheight(s) >= s.Network.HardforkV2.FinalCutHeight ==> wval(s.Difficulty) != 0
+//@   ensures @accept-iff (result == nil) == (bh.ParentID == s.Index.ID && !bh.Timestamp.Before(s.medianTimestamp()) && bh.Nonce % (cheight(s) < s.Network.HardforkASIC.Height ? 1 : s.Network.HardforkASIC.NonceFactor) == 0 && types.b256(bh.ID()) <= (cheight(s) < s.Network.HardforkV2.FinalCutHeight ? types.b256(s.ChildTarget) : (W256 - 1) / wval(s.Difficulty)))
+
+//@ func (State).SufficientlyHeavierThan
+//@   prop C13
+//@   requires wval(t.TotalWork) + wval(t.Difficulty) / 5 < W256
+//@   ensures @def result == (wval(s.TotalWork) > wval(t.TotalWork) + wval(t.Difficulty) / 5)
+
+//@ lemma heavier_asymmetric(a State, b State) prop=C13 :: !(wval(a.TotalWork) > wval(b.TotalWork) + wval(b.Difficulty) / 5 && wval(b.TotalWork) > wval(a.TotalWork) + wval(a.Difficulty) / 5)
+
+//@ func updateTotalWork
+//@   prop C13
+//@   requires s.Network != nil && cheight(s) >= s.Network.HardforkV2.AllowHeight
+//@   requires wval(s.Difficulty) >= 1 && wval(s.TotalWork) + wval(s.Difficulty) < W256
+//@   ensures @monotone wval(result0) == wval(s.TotalWork) + wval(s.Difficulty) && wval(result0) > wval(s.TotalWork)
+//@   ensures @depth-inverse types.b256(result1) == (W256 - 1) / wval(result0)
+
+//@ func updateOakWork
+//@   prop C13
+//@   requires s.Network != nil && cheight(s) >= s.Network.HardforkV2.AllowHeight
+//@   requires wval(s.Difficulty) >= 1 && wval(s.OakWork) + wval(s.Difficulty) < W256
+//@   ensures @decay wval(result0) == wval(s.OakWork) - wval(s.OakWork) / 200 + wval(s.Difficulty)
+//@   ensures @target-inverse types.b256(result1) == (W256 - 1) / wval(result0)
+
+//@ func updateOakTime
+//@   prop C13
+//@   requires s.Network != nil
+//@   ensures @total true
+
+//@ func adjustDifficulty
+//@   prop C13
+//@   requires s.Network != nil && cheight(s) >= s.Network.HardforkV2.AllowHeight
+//@   requires wval(s.Difficulty) >= 1 && wval(s.Difficulty) < 2^190 && wval(s.OakWork) < 2^190
+//@   requires 0 < s.Network.BlockInterval && s.Network.BlockInterval <= 2^50
+//@   ensures @nonzero wval(result0) >= 1
+//@   ensures @clamp-up wval(result0) <= wval(s.Difficulty) + max(wval(s.Difficulty) / 250, 1)
+//@   ensures @clamp-down wval(result0) + max(wval(s.Difficulty) / 250, 1) >= wval(s.Difficulty)
+//@   ensures @target-inverse types.b256(result1) == (W256 - 1) / wval(result0)
+
+// Pre-v2 target arithmetic (math/big, float64): outside the verifier's subset.  Calls are
+// modelled with unconstrained results (sound over-approximation of these pure functions);
+// the contracts above only cover the eras that do not reach them.
+//@ func adjustTarget
+//@   trusted
+//@ func addTarget
+//@   trusted
+//@ func mulTargetFrac
+//@   trusted
+//@ func intToTarget
+//@   trusted
+//@ func updateOakTarget
+//@   trusted
+
+// Inv_pow: the proof-of-work part of the state invariant (size bounds are assumption T10).
+//@ spec InvPow(s State) bool = s.Network != nil && wval(s.Difficulty) >= 1 && wval(s.Difficulty) < 2^190 && wval(s.OakWork) < 2^190 && wval(s.TotalWork) < 2^250 && 0 < s.Network.BlockInterval && s.Network.BlockInterval <= 2^50
+
+//@ func ApplyHeader
+//@   prop C13
+//@   requires InvPow(s) && cheight(s) >= s.Network.HardforkV2.AllowHeight
+//@   panics-iff s.Index.Height > 0 && s.Index.ID != bh.ParentID
+//@   let genesis = iszero(bh.ParentID)
+//@   ensures @total-work !genesis ==> wval(result.TotalWork) == wval(s.TotalWork) + wval(s.Difficulty) && wval(result.TotalWork) > wval(s.TotalWork)
+//@   ensures @nonzero wval(result.Difficulty) >= 1
+//@   ensures @clamp !genesis ==> wval(result.Difficulty) <= wval(s.Difficulty) + max(wval(s.Difficulty) / 250, 1) && wval(result.Difficulty) + max(wval(s.Difficulty) / 250, 1) >= wval(s.Difficulty)
+//@   ensures @target-inverse !genesis && result.Index.Height < s.Network.HardforkV2.FinalCutHeight ==> types.b256(result.ChildTarget) == (W256 - 1) / wval(result.Difficulty) && types.b256(result.Depth) == (W256 - 1) / wval(result.TotalWork)
+//@   ensures @oak-work wval(result.OakWork) == wval(s.OakWork) - wval(s.OakWork) / 200 + wval(s.Difficulty)
+//@   ensures @index result.Index.ID == bh.ID() && (genesis ? result.Index.Height == 0 : result.Index.Height == cheight(s))
+//@   ensures @timestamps result.PrevTimestamps[0] == bh.Timestamp && forall k in 1..11 :: result.PrevTimestamps[k] == s.PrevTimestamps[k-1]
+//@   ensures @frame result.Network == s.Network && result.SiafundTaxRevenue == s.SiafundTaxRevenue && result.Attestations == s.Attestations && result.FoundationSubsidyAddress == s.FoundationSubsidyAddress && result.FoundationManagementAddress == s.FoundationManagementAddress && result.Elements == s.Elements
